@@ -59,7 +59,11 @@ def gen_program(rng, k):
             prog.append(("app", bytes([cl.COM_QUERY]) + b"SELECT x FROM t%d" % k))
         elif r < 0.55:
             prog.append(("app", bytes([cl.COM_QUERY]) + b"SELECT s FROM stream%d" % k))
-        elif r < 0.65:
+        elif r < 0.6:
+            # a statement under an optimizer hint stays in flight while others run; its variables are read back afterwards
+            prog.append(("app", bytes([cl.COM_QUERY]) + b"SELECT /*+ SET_VAR(sql_mode = 'H%d') SET_VAR(max_execution_time = %d) */ x FROM h%d" % (k, 100 + k, k)))
+            prog.append(("cmd", bytes([cl.COM_QUERY]) + b"SELECT @@sql_mode, @@max_execution_time"))
+        elif r < 0.68:
             prog.append(("cmd", bytes([cl.COM_QUERY]) + rng.choice([b"SELECT @@sql_mode", b"SHOW VARIABLES LIKE 'sql_mode'", b"SELECT CONNECTION_ID() > 0"])))
         elif r < 0.75:
             prog.append(("cmd", bytes([cl.COM_STMT_PREPARE]) + b"SELECT a FROM t WHERE k%d = ?" % k))
